@@ -114,6 +114,12 @@ func propSpecs() map[string]*PropSpec {
 	for _, i := range []int64{1, 11, 12, 13} {
 		c01.Jobs = append(c01.Jobs, JobSpec{Pkg: pkgCM, Harness: "H_C01_T", Params: []int64{i, 3}, Bound: fmt.Sprintf("C01 template %d via streaming NextBlock, input cut into two reads at every position", i), Tier: "quick"})
 	}
+	for n := int64(1); n <= 3; n++ {
+		c01.Jobs = append(c01.Jobs, JobSpec{Pkg: pkgCM, Harness: "H_C01_F", Params: []int64{n, 4}, Bound: fmt.Sprintf("F(%d) via in-memory Parse of a sub-slice with spare capacity (buffer and spare bytes must stay untouched, NUL or not)", n), Tier: "quick"})
+	}
+	for _, i := range []int64{4, 6} {
+		c01.Jobs = append(c01.Jobs, JobSpec{Pkg: pkgCM, Harness: "H_C01_T", Params: []int64{i, 4}, Bound: fmt.Sprintf("C01 template %d via in-memory Parse of a sub-slice with spare capacity", i), Tier: "quick"})
+	}
 	c01.Jobs = append(c01.Jobs, JobSpec{Pkg: pkgCM, Harness: "H_C01_F", Params: []int64{3, 2}, Bound: "F(3) via streaming NextBlock under every read schedule", Tier: "thorough"})
 	for _, i := range []int64{0, 2, 3, 4, 5, 6} {
 		c01.Jobs = append(c01.Jobs, JobSpec{Pkg: pkgCM, Harness: "H_C01_T", Params: []int64{i, 3}, Bound: fmt.Sprintf("C01 template %d via streaming NextBlock, input cut into two reads at every position", i), Tier: "thorough"})
@@ -486,6 +492,9 @@ func propSpecs() map[string]*PropSpec {
 	}
 	for f, nm := range []string{"indented code", "fenced code", "an ATX heading", "a block quote", "a paragraph"} {
 		cm(c06, "H_C06_loose", int64(f), 0, "tight/loose: two-item list whose first item starts with "+nm+"; blank line between items and second block in the item are solver variables", "quick")
+	}
+	for f, nm := range []string{"an ATX heading", "a thematic break", "an empty fenced code block", "a fenced code block", "a paragraph", "a setext heading"} {
+		cm(c06, "H_C06_loose_nested", int64(f), 0, "tight/loose across nesting levels: outer two-item list, nested one-item list holding a paragraph and "+nm+"; blank line inside the nested item and between the outer items are solver variables", "quick")
 	}
 	cm(c06, "H_C06", 1, 0, "documents of <= 1 node, LF, reduced menus", "quick")
 	cm(c06, "H_C06", 2, 0, "documents of <= 2 nodes, LF, reduced menus", "quick")
